@@ -12,7 +12,6 @@ import (
 	"github.com/oasisprotocol/curve25519-voi/curve/scalar"
 	"github.com/oasisprotocol/curve25519-voi/internal/elligator"
 	"github.com/oasisprotocol/curve25519-voi/internal/field"
-	"github.com/oasisprotocol/curve25519-voi/internal/lattice"
 	"github.com/oasisprotocol/curve25519-voi/internal/verif/mc"
 	"github.com/oasisprotocol/curve25519-voi/internal/verif/ref"
 	"github.com/oasisprotocol/curve25519-voi/primitives/ed25519"
@@ -167,7 +166,6 @@ func workload(c *mc.Ctx) *space {
 				}
 			}
 			_ = scalar.ScMinimalVartime(b[:])
-			_, _ = lattice.FindShortVector(x)
 		}
 	})
 
